@@ -2,5 +2,5 @@
 From PV Require Import Base.Prelude Spec.PxcFormat Spec.P8PngSpec Instances.HoldsC04.
 Require Extraction.
 Require Import ExtrOcamlBasic.
-Extraction "../ocaml/build/MonC04.ml" io_types holds_C04_image holds_C04_readback holds_C04_refused holds_C04_pixels
+Extraction "../ocaml/build/MonC04.ml" io_types holds_C04_image holds_C04_readback holds_C04_refused holds_C04_refused_witness holds_C04_pixels
   rom_of_rows area_text.
